@@ -112,6 +112,8 @@ func execConc(op string, a []string) vlib.Res {
 	switch op {
 	case "new":
 		return vlib.Res{Impl: "ok", Oracle: "-"}
+	case "stall":
+		return execStall(a)
 	case "run":
 		if len(a) != 6 {
 			break
